@@ -336,7 +336,11 @@ pub fn run_hw(c: &Case) -> Obs {
         match &r {
             R::Ok(h2) if *h2 == h => Ok(()),
             R::Ok(_) => Err(("hw-header-roundtrip-differs".to_string(), String::from_utf8_lossy(&text).replace('\n', "\\n"))),
-            _ => Err(("hw-written-header-unparsable".to_string(), String::from_utf8_lossy(&text).replace('\n', "\\n"))),
+            _ => {
+                let local = spec.formats.iter().any(|m| matches!(m.num.as_deref(), Some("LA" | "LR" | "LG" | "P" | "M")));
+                let tag = if local { "header-format-number-la-lr-lg-p-m-unparsable" } else { "hw-written-header-unparsable" };
+                Err((tag.to_string(), String::from_utf8_lossy(&text).replace('\n', "\\n")))
+            }
         }
     };
     Obs::ok(obs, true).with_verdict(verdict)
@@ -419,7 +423,7 @@ pub fn gen_hw(rng: &mut Rng, w: &mut CaseWriter, odd: bool) {
     for id in id_pool(rng, n) {
         let ty = *rng.pick(&["I", "F", "C", "S"]);
         // the local-allele / ploidy / base-modification numbers exist for FORMAT only (odd: the parser rejects them)
-        let fnum = if odd && rng.chance(1, 4) { rng.pick(&["LA", "LR", "LG", "P", "M"]).to_string() } else { rng.pick(&nums).to_string() };
+        let fnum = if rng.chance(1, if odd { 4 } else { 12 }) { rng.pick(&["LA", "LR", "LG", "P", "M"]).to_string() } else { rng.pick(&nums).to_string() };
         h.formats.push(HMap { id, num: Some(fnum), ty: Some(ty.into()), desc: Some(rng.pick(HSTR).to_string()), idx: ix(rng), others: gen_others(rng, odd), ..Default::default() });
     }
     let n = *rng.pick(&[0usize, 0, 1, 2]);
